@@ -9,11 +9,6 @@ mkdir -p "$V/_build"
 LOG="$V/_build/build.log"; : > "$LOG"
 rc=0
 /venv/bin/python "$V/harness/gen_tables.py" "$REPO" "$V/coq/Gen" > "$V/_build/gen.json" 2>>"$LOG" || rc=2
-if [ $rc -eq 2 ]; then
-  # fail-closed extractor: fall back to the last validated tables so that the model-as-validated
-  # can still be run against the changed code (the caller reports the broken tie).
-  for f in "$V"/coq/GenGolden/*.v; do b=$(basename "$f"); [ -f "$V/coq/Gen/$b" ] || cp "$f" "$V/coq/Gen/$b"; done
-fi
 DEPS=$(/venv/bin/python "$V/tools/mkextract.py") || exit 3
 "$V/tools/mkproject.sh" || exit 3
 cd "$V/coq" || exit 3
